@@ -926,6 +926,8 @@ typedef struct cthr {
 	    old_before_new, sticky_clamped, sticky_unclamped_after_clamped, sticky_rounds, sticky_aimed[4], closed_live, closed_expired, closed_recv_eclosed, closed_recv_other, closed_with_recv, closed_with_queued,
 	    small_T_surveys, small_T_deadlines, small_T_msgs, flood_rounds, flood_written, flood_delivered, flood_overflowed, flood_dropped, flood_superseded, edge_rounds[2], edge_res[2][4];
 	bool dlv_seen[OP_N][K_N], res_seen[OP_N][D_N][5];
+	nng_msg *spare; // the last response that was delivered, kept to be sent again as a survey
+	long     reused_msgs;
 } cthr;
 
 // one receive operation and the survey state it was issued under
@@ -1173,7 +1175,13 @@ judge_msg(cthr *t, nng_msg *m, uint32_t e1, uint32_t e2, uint64_t t_done)
 		t->dlv_seen[t->op][kl] = true;
 		if (seq != e2) t->old_before_new++;
 	}
-	nng_msg_free(m);
+	// an application may well send the message it has just received again
+	// (with a new body): keep one
+	if (t->spare == NULL && !bad) {
+		t->spare = m;
+	} else {
+		nng_msg_free(m);
+	}
 	return !bad;
 }
 
@@ -1396,7 +1404,18 @@ t_send(cthr *t, int dir, uint32_t T)
 	nng_msg *m;
 	size_t   size = VF_BODY_MIN + vf_below(&t->rng, 64);
 	int      rv;
-	if (nng_msg_alloc(&m, size) != 0) vf_harness_fail("msg alloc");
+	if (t->spare != NULL && vf_chance(&t->rng, 1, 2)) {
+		// the survey travels in a message that came out of a receive on this
+		// socket: whatever the library left in its header is not the
+		// application's business and must not reach the wire
+		m        = t->spare;
+		t->spare = NULL;
+		nng_msg_clear(m);
+		if (nng_msg_realloc(m, size) != 0) vf_harness_fail("msg realloc");
+		t->reused_msgs++;
+	} else if (nng_msg_alloc(&m, size) != 0) {
+		vf_harness_fail("msg alloc");
+	}
 	if (t->force_opt) {
 		// an edge value of the option; what it means is recorded, not judged,
 		// and nothing about this survey is ever called late
@@ -2199,6 +2218,11 @@ run_case(long idx, const casecfg *cc)
 		vf_stat("after_own_timeout_estate", t->after_taint[1]);
 		vf_stat("after_own_timeout_timeout", t->after_taint[2]);
 		vf_stat("fresh_ctx_probes", t->fresh_probes);
+		vf_stat("surveys_sent_in_a_received_message", t->reused_msgs);
+		if (t->spare != NULL) {
+			nng_msg_free(t->spare);
+			t->spare = NULL;
+		}
 		vf_stat("reused_aio_rounds", t->sticky_rounds);
 		vf_stat("reused_aio_receive_clamped_to_deadline", t->sticky_clamped);
 		vf_stat("reused_aio_own_timeout_after_clamped_receive", t->sticky_unclamped_after_clamped);
